@@ -386,6 +386,7 @@ func (s *Server) handleConn(ctx context.Context, conn *Conn, module *Module, pc 
 		// If returning an error, send the error to the client for display, too:
 		defer func() {
 			if err != nil {
+				drainPeer(rd)
 				mpx.WriteMsg(rsyncwire.MsgError, fmt.Appendf(nil, "gokr-rsync [sender]: %v\n", err))
 			}
 		}()
@@ -396,10 +397,20 @@ func (s *Server) handleConn(ctx context.Context, conn *Conn, module *Module, pc 
 	// If returning an error, send the error to the client for display, too:
 	defer func() {
 		if err != nil {
+			drainPeer(rd)
 			mpx.WriteMsg(rsyncwire.MsgError, fmt.Appendf(nil, "gokr-rsync [receiver]: %v\n", err))
 		}
 	}()
 	return s.handleConnReceiver(module, crd, cwr, paths, opts, false, c, sessionChecksumSeed)
+}
+
+// drainPeer keeps consuming what the peer sends after the session has failed
+// on our side. The peer may be blocked writing to us (always so over an
+// unbuffered transport such as an in-process pipe) and would otherwise
+// never get to read the error message we are about to send, while we block
+// sending it. The goroutine ends when the connection is closed.
+func drainPeer(rd io.Reader) {
+	go io.Copy(io.Discard, rd)
 }
 
 // handleConnReceiver is equivalent to rsync/main.c:do_server_recv
